@@ -9,7 +9,12 @@ RULE = ('complete enumeration: 4 core translation units x {gcc, clang} x {-O0, -
         'distinct = configurations x distinct undefined symbols')
 def scenarios(rng, tier): return []
 def project(blk, name, meta): return ()
-ALLOWED_EXTRA = {'memcpy', 'memset', 'memmove', 'memcmp', '_GLOBAL_OFFSET_TABLE_', '__stack_chk_fail', '__stack_chk_guard'}
+ALLOWED_EXTRA = {'memcpy', 'memset', 'memmove', 'memcmp', '_GLOBAL_OFFSET_TABLE_', '__stack_chk_fail', '__stack_chk_guard',
+                 '__udivdi3', '__umoddi3', '__divdi3', '__moddi3', '__muldi3', '__ashldi3', '__lshrdi3', '__ashrdi3', '__udivmoddi4',
+                 '__aeabi_uldivmod', '__aeabi_ldivmod', '__aeabi_lmul', '__aeabi_llsl', '__aeabi_llsr',
+                 '__aeabi_memcpy', '__aeabi_memcpy4', '__aeabi_memcpy8', '__aeabi_memset', '__aeabi_memset4', '__aeabi_memset8',
+                 '__aeabi_memclr', '__aeabi_memclr4', '__aeabi_memclr8', '__aeabi_memmove', '__aeabi_memmove4', '__aeabi_memmove8',
+                 '_aulldiv', '_aullrem', '_alldiv', '_allrem', '_allmul', '_aullshr', '_allshl', '_allshr', '__chkstk', '_chkstk'}
 FREESTANDING = {'stddef.h', 'stdint.h', 'stdbool.h', 'stdarg.h', 'limits.h', 'float.h', 'iso646.h', 'stdalign.h', 'stdnoreturn.h'}
 def extra_checks(tier, seed):
     """search for the concrete offender in the regenerated facts (the theorem only says yes or no)"""
@@ -25,6 +30,12 @@ def extra_checks(tier, seed):
                 fails.append('the core built with "%s" references %s, which is neither a function declared in lltdPort.h nor a memory primitive' % (cfgname, sym))
         for sym in wr:
             if sym != 'g_iface_states': fails.append('the core built with "%s" has the writable global %s besides the interface registry (shared mutable state, premise of C17)' % (cfgname, sym)); break
+    xb = re.search(r'Definition extra_builds.*?:=(.*?)\]\.\n', txt, re.S)
+    for m in re.finditer(r'\("([^"]+)", \[(.*?)\]\)', xb.group(1) if xb else ''):
+        for sym in lst(m.group(2)):
+            n += 1; distinct.add(sym)
+            if sym not in api and sym not in ALLOWED_EXTRA:
+                fails.append('the core built with "%s" references %s, which is neither a function declared in lltdPort.h nor a memory primitive nor compiler run-time support' % (m.group(1), sym))
     for m in re.finditer(r'\("([^"]+\.[ch])", \[(.*?)\]\)', txt):
         for h in lst(m.group(2)):
             if h not in FREESTANDING: fails.append('core file %s includes <%s>, which is not a freestanding header' % (m.group(1), h))
